@@ -30,12 +30,21 @@ TReset ==
 
 TPressure == Is("Pressure") /\ pressure' = TRUE /\ UNCHANGED vars
 
+\* Search heuristic, not a judgement: with VERIF_STRICT set in the environment only those victim sets are tried whose
+\* expired members are taken in deadline order (what the timeout index of the code does).  A trace rejected in this mode
+\* is validated again without it (any expired victim is legal) before anything is reported - see checks/C08.py.
+StrictExpired == "VERIF_STRICT" \in DOMAIN IOEnv
+PrefixOK(P0) ==
+    LET gone == P0 \ present'
+    IN \A e \in gone : (last[e].dl < now) => (\A j \in P0 : (last[j].dl < last[e].dl) => j \in gone)
+
 TStore ==
     /\ Is("Store")
     /\ IF pressure THEN StoreUnderPressure(Ev.k, Ev.v, SeqToSet(Ev.ts), Ev.dl)
                    ELSE Store(Ev.k, Ev.v, SeqToSet(Ev.ts), Ev.dl)
     /\ nv' = nv /\ pressure' = pressure
     /\ StatsOK
+    /\ (StrictExpired => PrefixOK(present \ {Ev.k}))
 
 TFetch ==
     /\ Is("Fetch")
